@@ -334,3 +334,28 @@ example : GeneratedBy [reqA] ⟨false, 0, none, [sanA], some [0x4f], none⟩ := 
 example : (getCert 2 false Store.empty (some []) [] none none).2 = .err := by decide
 
 end MitmVerif.Props.C17
+
+/-! ### round-6 cross-audit: further non-vacuity witnesses (appended by the auditor, no statement changed) -/
+namespace MitmVerif.Props.C17
+open MitmVerif MitmVerif.C17
+
+-- `same_request_same_cert_while_cached` instantiated with a non-empty `mid`: a.b is generated, another name is
+-- requested in between (capacity 2, so a.b is still queued), the repeat — with another organization — is a hit on it
+example : (getCert 2 true (run 2 (getCert 2 true (run 2 Store.empty []) none [sanA] (some [0x4f]) none).1 [reqB])
+      none [sanA] (some [0x58]) none).2 = .hit ⟨false, 0, none, [sanA], some [0x4f], none⟩ :=
+  same_request_same_cert_while_cached (org := some [0x4f]) (crl := none) 2 [] [reqB] true true none [sanA] (some [0x58]) none _
+    (by simp [reqB, Op.isGet]) (by decide) (Or.inr (by decide))
+-- … and its premise `hc` matters: with capacity 1 the entry has been evicted by the request in between and the repeat
+-- generates a new certificate
+example : (getCert 1 true (run 1 (getCert 1 true (run 1 Store.empty []) none [sanA] (some [0x4f]) none).1 [reqB])
+      none [sanA] none none).2 = .fresh ⟨false, 2, none, [sanA], none, none⟩ := by decide
+-- the hypothesis of `returned_is_custom_matching_or_generated_exact` on a history with a registration, both disjuncts
+example : (getCert 2 true (run 2 Store.empty [reqA, reg]) none [sanA] none none).2.entry? = some ⟨true, 7, none, [], none, none⟩ := by decide
+example : (getCert 2 true (run 2 Store.empty [reqA, reg]) (some [0x63]) [] none none).2.entry? = some ⟨false, 1, some [0x63], [], none, none⟩ := by decide
+-- `first_registered_name_wins` instantiated: a.b itself is not registered, "*.b" is, "*" comes later
+example : getCert 2 true (run 2 Store.empty [.add 1 none [] [[star]], reg]) none [sanA] none none =
+    (run 2 Store.empty [.add 1 none [] [[star]], reg], .hit ⟨true, 7, none, [], none, none⟩) :=
+  first_registered_name_wins (org := none) (crl := none) 2 true _ none [sanA] [[0x61, dot, 0x62]] [[star]] [star, dot, 0x62] _
+    (by decide) (by decide) (by decide)
+
+end MitmVerif.Props.C17
